@@ -478,3 +478,17 @@ CHECKS['C02'].update({
                           "GLOBSTARLONG; the old side condition noGG is now a consequence of the reading), hence code = spec on every accepted path pattern "
                           "(C02_read_spec / _spec_glob); C02_faithful_globfree / _glob: the earlier form on the printed pattern"),
 })
+_c16 = CHECKS['C16']['text']
+CHECKS['C16'].update({
+    'text': "C16views (the abstract iglob/globmatch parameters instantiated with the walker and matcher MODELS, `realEnv`): globmatch_is_glob_globmatch / "
+            "match_is_extmatchbase (PurePath.globmatch, full_match, match = the glob.globmatch model on the path's string with the translated word, directory slash, "
+            "_EXTMATCHBASE; the implicit prefix evaluated: extmatchbase_prefix, extmatchbase_parse_shape for EVERY pattern), globSplit_total / noabsolute_raises_split "
+            "(the splitter raises exactly for an absolute pattern under _NOABSOLUTE, never otherwise, every user word), path_glob_is_glob, "
+            "globResults_eq_formatPaths + path_glob_no_duplicates (walker results = formatPaths: the seen-set theorems apply to the walker, unconditionally since the "
+            "D16/D18 repairs), and **C16_match_rglob_literal**: q.match(p, REALPATH) <-> q in Path('.').rglob(p) PROVED for every literal pattern s1/…/sk, every "
+            "well-formed tree, every user flag word without DOTMATCH/FOLLOW/IGNORECASE (NODIR included), via a C04-style equality matchReal_emLits_iff_denotes "
+            "(regex + capture span + link loop = DenotesTop); the hypotheses that remain are forced (newline_needed: KF-NEWLINE's open half; dotseg_needed: KF-DOTSEG). " + _c16,
+    'note': CHECKS['C16']['note'].replace("so\n", "so ").replace("`q.match(p, REALPATH) <-> q in Path('.').rglob(p)` is stated and compared on every entry of every tree, not "
+            "proved;", "`q.match(p, REALPATH) <-> q in Path('.').rglob(p)` is proved for literal patterns only (C16_match_rglob_literal); for magic patterns it is false as "
+            "stated (KF-D6/D7/D8/G3/G8/RGLOBSTAR/PARTPREFIX) and is compared on every entry of every tree;"),
+})
